@@ -40,9 +40,23 @@ def g2_header_mutations(name, data, boxes):
             m = bytearray(data)
             m[at:at + 4] = struct.pack(">I", v & 0xffffffff)
             res.append(("G2/%s@%d:%s/size=%d" % (name, at, typ.decode("latin1"), v), "file", bytes(m)))
-        for large in (0, 15, 16, 1 << 63):
-            m = bytearray(data[:at]) + struct.pack(">I", 1) + data[at + 4:at + 8] + struct.pack(">Q", large) + data[at + 8:]
+        for large in (0, 15, 16, 1 << 63, (1 << 64) - 16, (1 << 64) - 1):
+            m = bytearray(data[:at]) + struct.pack(">I", 1) + data[at + 4:at + 8] + struct.pack(">Q", large & 0xffffffffffffffff) + data[at + 8:]
             res.append(("G2/%s@%d:%s/largesize=%d" % (name, at, typ.decode("latin1"), large), "file", bytes(m)))
+    # largesize values that wrap to a negative length: in lazy mode the decoder seeks by (largesize - 16), i.e. backwards,
+    # for every earlier top-level box boundary Q <= at (a seek back onto a boundary would decode the same boxes again)
+    tops = [b for b in boxes if b[4] == 0]
+    for (at, size, hdr, typ, depth) in tops:
+        if typ != b"mdat":
+            continue
+        for (q, _, _, _, _) in tops:
+            if q > at:
+                break
+            large = ((1 << 64) - (at - q)) & 0xffffffffffffffff
+            if large < 16:
+                large = (1 << 64) - 16
+            m = bytearray(data[:at]) + struct.pack(">I", 1) + data[at + 4:at + 8] + struct.pack(">Q", large) + data[at + 8:]
+            res.append(("G2/%s@%d:mdat/largesize=2^64-%d" % (name, at, at - q), "file", bytes(m)))
     return res
 
 
@@ -129,6 +143,14 @@ def run(ctx):
         iid = "G6/%s/v%d/f%x/c%d/%s-%s/%s/%s" % (e["layout"], e["ver"], e["flags"], e["cnt"], e["pick"][0], e["pick"][1], e["hdr"], e["wrap"])
         items.append((iid, "file", b))
         g6 += 1
+        # G2/G3 on every box shape: size / largesize / count corruption of the instance's own header (and of its parent when nested)
+        if e["pick"][0] == 0 and e["hdr"] == "s32" and e["cnt"] == 1 and (q is False or e["flags"] == 0):
+            boxes = [(0, len(b), 8, b[4:8], 0)]
+            if e["wrap"] == "parent":
+                boxes.append((8, len(b) - 8, 8, b[12:16], 1))
+            ms = g2_header_mutations(iid, b, boxes) + g3_count_inflation(iid, b, boxes)
+            items += ms
+            g6 += len(ms)
         if not q and e["pick"][0] == 0 and e["hdr"] == "s32" and e["wrap"] == "none" and e["cnt"] == 2:
             for c in range(8, len(b)):
                 items.append((iid + "/cut=%d" % c, "file", b[:c]))
